@@ -51,6 +51,36 @@ class Boom(Exception):
     """Raised by the borrower's on_log callback."""
 
 
+def raise_dict(raise_at: Any) -> dict[int, str]:
+    """raise_at entries are (callback invocation number, class letter) pairs; a bare int means "V"."""
+    out: dict[int, str] = {}
+    for e in raise_at:
+        i, c = (e, "V") if isinstance(e, int) else e
+        out.setdefault(int(i), str(c))
+    return out
+
+
+def make_exc(cls: str, n: int) -> BaseException:
+    """Class letters: V ValueError, T RuntimeError (neither is caught anywhere in the client: model class XPlain),
+    O plain OSError (XOs), R RpcError (XRpc), A pa.ArrowInvalid (XArrow)."""
+    msg = f"on_log callback invocation {n}"
+    if cls == "V":
+        return ValueError(msg)
+    if cls == "T":
+        return RuntimeError(msg)
+    if cls == "O":
+        return OSError(msg)
+    if cls == "R":
+        from vgi_rpc.rpc import RpcError
+
+        return RpcError("CallbackError", msg, "")
+    if cls == "A":
+        import pyarrow as pa
+
+        return pa.ArrowInvalid(msg)
+    raise HarnessError(f"unknown exception class letter {cls!r}")
+
+
 class ScriptError(Exception):
     """The borrower script asked for an operation its own state does not allow (wire untouched)."""
 
@@ -567,13 +597,20 @@ class Scheduler:
         from harness.c32_worker import C32Service
 
         _, key, _spawn_ok, ops, raise_at = t.spec
-        raise_set = set(raise_at)
+        raise_map = raise_dict(raise_at)
+        st: dict[str, Any] = {"cur": "none", "sess": None, "ending": "C", "w": None}
+        causes = {"U": "unary-callback-raise", "O": "stream-init-callback-raise", "O2": "second-stream-init-callback-raise", "T": "tick-callback-raise", "C": "stream-close-callback-raise", "X": "cancel-drain-callback-raise"}
 
         def cb(msg: Any) -> None:
             n = t.cb_calls
             t.cb_calls += 1
-            if n in raise_set:
-                raise Boom(f"callback invocation {n}")
+            if n in raise_map:
+                w = st["w"]
+                if w is not None and not getattr(w, "keep_cause", False):
+                    s0 = st["sess"]
+                    in_drain = s0 is not None and getattr(s0, "_closed", False)  # close()/cancel() set _closed first
+                    w.last_cause = causes[st["ending"]] if in_drain else causes.get(st["cur"], "other")
+                raise make_exc(raise_map[n], n)
 
         def fresh() -> int:
             self.token += 1
@@ -581,18 +618,14 @@ class Scheduler:
 
         self.park(t, ("start",))
         cmd = ["fake-worker", str(key)]
-        causes = {"U": "unary-callback-raise", "O": "stream-init-callback-raise", "O2": "second-stream-init-callback-raise", "T": "tick-callback-raise", "C": "stream-close-callback-raise"}
 
-        def managed_close(w: Any, s: Any) -> None:
-            try:
-                s.close()
-            except Boom:
-                if w is not None and not getattr(w, "keep_cause", False):
-                    w.last_cause = causes["C"]
-                raise
+        def managed_close(s: Any) -> None:
+            st["sess"], st["ending"] = s, "C"
+            s.close()
 
         with self.pool.connect(C32Service, cmd, on_log=cb) as svc, contextlib.ExitStack() as stack:
             w = t.owned
+            st["w"] = w
             if w is not None:
                 w.last_holder = t.tid  # type: ignore[attr-defined]
                 if not getattr(w, "keep_cause", False):
@@ -605,7 +638,7 @@ class Scheduler:
                 for o in ops:
                     self.park(t, ("use",))
                     t.ops_left -= 1
-                    cur = o[0]
+                    cur = st["cur"] = o[0]
                     if o[0] == "U":
                         if sess is not None:
                             raise ScriptError("unary while a stream is open")
@@ -616,31 +649,44 @@ class Scheduler:
                         if sess is not None:
                             raise ScriptError("second stream while one is open")
                         tok = fresh()
-                        cur = "O2" if streams else "O"
+                        cur = st["cur"] = "O2" if streams else "O"
                         streams += 1
+                        st["sess"] = None
                         s = svc.gen(token=tok)
                         sess, stream_token = s, tok
+                        st["sess"], st["ending"] = s, "C"
                         if o[1]:
-                            stack.callback(managed_close, w, s)
+                            stack.callback(managed_close, s)
                         self._expect(t, "gen-header", tok, s.header.token)
                     elif o[0] == "T":
                         if sess is None:
                             raise ScriptError("tick without a stream")
-                        ab = sess.tick()
+                        try:
+                            ab = sess.tick()
+                        finally:
+                            if sess._closed:  # tick() closed the session itself (RpcError / transport error)
+                                sess = None
                         self._expect(t, "tick", stream_token, ab.batch.column("token")[0].as_py())
                     elif o[0] == "C":
                         if sess is None:
                             raise ScriptError("close without a stream")
                         s, sess = sess, None
+                        st["ending"] = "C"
                         s.close()
+                    elif o[0] == "X":
+                        if sess is None:
+                            raise ScriptError("cancel without a stream")
+                        s, sess = sess, None
+                        st["ending"] = "X"
+                        s.cancel()
                     else:
                         raise HarnessError(f"unknown op {o!r}")
                     t.outcome.append((o[0], "ok"))
                 self.park(t, ("use",))
             except BaseException as e:  # noqa: BLE001
                 t.outcome.append((cur, type(e).__name__))
-                if w is not None and not getattr(w, "keep_cause", False):
-                    w.last_cause = causes.get(cur, "other") if isinstance(e, Boom) else "other"  # type: ignore[attr-defined]
+                if w is not None and not getattr(w, "keep_cause", False) and getattr(w, "last_cause", None) is None:
+                    w.last_cause = "other"  # type: ignore[attr-defined]
                 t.ops_left = 0
                 raise
 
